@@ -10,6 +10,7 @@ import (
 	"verif/engine/build"
 	"verif/engine/props/c01"
 	"verif/engine/props/c03"
+	"verif/engine/props/c04"
 	"verif/engine/props/c05"
 	"verif/engine/props/c06"
 	"verif/engine/props/c07"
@@ -33,6 +34,7 @@ var checks = map[string]struct {
 }{
 	"C01": {"translation_validation", c01.Run},
 	"C03": {"model_checking", c03.Run},
+	"C04": {"model_checking", c04.Run},
 	"C05": {"model_checking", c05.Run},
 	"C06": {"model_checking", c06.Run},
 	"C07": {"model_checking", c07.Run},
